@@ -187,8 +187,25 @@ def check_counts_and_reference(tier, seed):
     try:
         ref, bam, reads = build(tmp, rng, 80)
         snvs = (22, 27, 33)
-        variants = tuple(SNP(contig="CHR1", start=p, stop=p + 1, name=".", alleles=(REFSEQ[p], "ACGT"[("ACGT".index(REFSEQ[p]) + 1) % 4])) for p in snvs)
+        # SNVs with different numbers of listed alleles (3, 2, 2): a cell that is not a listed allele of ITS OWN SNV
+        # (N from disagreeing mates, another base) is "no call" whatever the other SNVs list
+        variants = tuple(SNP(contig="CHR1", start=p, stop=p + 1, name=".", alleles=(REFSEQ[p],) + tuple("ACGT"[("ACGT".index(REFSEQ[p]) + d) % 4] for d in ((1, 2) if k_ == 0 else (1,)))) for k_, p in enumerate(snvs))
         locus = Locus(contig="CHR1", start=20, stop=40, name="L", sequence=REFSEQ[20:40], variants=variants)
+        # the character -> allele index step on its own: every symbol matrix over {A,C,G,T,N,-} x allele tuples of mixed length
+        from mchap.encoding.character.transcode import as_allelic
+
+        for rep in range(60):
+            npos = int(rng.integers(1, 5))
+            tups = []
+            for _ in range(npos):
+                k2 = int(rng.integers(1, 5))
+                tups.append(tuple(rng.permutation(list("ACGT"))[:k2]))
+            chars = rng.choice(list("ACGTN-"), size=(int(rng.integers(1, 7)), npos))
+            got_idx = as_allelic(chars, alleles=tups)
+            exp_idx = np.array([[tups[i].index(c) if c in tups[i] else -1 for i, c in enumerate(r)] for r in chars])
+            ev += 1
+            if not np.array_equal(np.asarray(got_idx), exp_idx) and len(fails) < 3:
+                fails.append({"key": "rt/allele_index_of_read_symbols", "check": "mchap.encoding.character.transcode.as_allelic", "input": {"symbols": chars.tolist(), "alleles": [list(t) for t in tups]}, "observed": np.asarray(got_idx).tolist(), "expected": exp_idx.tolist(), "how": "index of the symbol among the alleles listed for its own SNV, -1 (no call) otherwise"})
         for min_q, keep in itertools.product((0, 20), itertools.product((True, False), repeat=3)):
             names = ["SA", "SB"]
             prog = make_program(APP.program, names, {n: 2 for n in names}, {n: 0.0 for n in names}, [FORMAT.GT], sample_mcmc_temperatures={n: [1.0] for n in names}, mapping_quality=min_q, skip_duplicates=keep[0], skip_qcfail=keep[1], skip_supplementary=keep[2])
